@@ -15,12 +15,12 @@ PLANS = {
 }
 
 PLANS["C02"] = {
-    "quick": [J("restart", "c=2,f=1", 90), J("restartwrap", "c=2", 40), J("restartfs", "c=1,f=1", 60), J("restart2p", "p=1,c=1,s=1", 60), J("window21", "c=1,f=1", 40)],
+    "quick": [J("restart", "c=2,f=1", 90), J("restartwrap", "c=2", 40), J("restartfs", "c=1,f=1", 60), J("restart2p", "p=1,c=1,s=1", 60), J("window21", "c=1,f=1", 40), J("qos2hold", "c=2", 30)],
     "thorough": [J("restart", "c=3,f=2,p=1", 900), J("restartwrap", "c=3,f=1,p=1", 600), J("restartfs", "c=2,f=1", 600), J("restart2p", "p=2,c=1,s=1", 600)],
 }
 
 PLANS["C03"] = {
-    "quick": [J("qos2out", "f=1,c=1", 60), J("qos2out", "f=2", 60), J("qos2out", "c=2,s=1", 60), J("pubflowvol", "f=1,s=1", 40), J("restartwrap", "c=2", 40)],
+    "quick": [J("qos2out", "f=1,c=1", 60), J("qos2out", "f=2", 60), J("qos2out", "c=2,s=1", 60), J("pubflowvol", "f=1,s=1", 40), J("restartwrap", "c=2", 40), J("qos2hold", "c=2", 30)],
     "thorough": [J("qos2out", "f=3,c=2,p=1", 900)],
 }
 PLANS["C05"] = {
@@ -59,7 +59,7 @@ PLANS["C07"] = {
 }
 
 PLANS["C17"] = {
-    "quick": [J("window21", "p=1,f=1", 30), J("window21x", "p=2,f=1", 30), J("window21wrap", "c=1,f=1", 60), J("window10", "p=1,f=1", 15), J("window3neg", "c=1,f=1", 30), J("c17-longrun", "quick", 120, test="TestE3", shards=4), J("c17-slots", "quick", 120, test="TestE3", shards=1), J("c11-idwrap", "quick", 120, test="TestE3", shards=1)],
+    "quick": [J("window21", "p=1,f=1", 30), J("window21x", "p=2,f=1", 30), J("qos2hold", "c=2", 30), J("window21wrap", "c=1,f=1", 60), J("window10", "p=1,f=1", 15), J("window3neg", "c=1,f=1", 30), J("c17-longrun", "quick", 120, test="TestE3", shards=4), J("c17-slots", "quick", 120, test="TestE3", shards=1), J("c11-idwrap", "quick", 120, test="TestE3", shards=1)],
     "thorough": [J("window21", "p=2,f=2,c=1,s=1", 400), J("window21x", "p=3,f=1,s=2", 300), J("c11-idwrap", "thorough", 120, test="TestE3", shards=1), J("window21wrap", "p=2,f=2,c=1,s=1", 400), J("window10", "p=2,f=2,c=1", 200), J("window3neg", "p=2,f=2,c=1", 200), J("c17-longrun", "thorough", 600, test="TestE3", shards=4), J("c17-slots", "thorough", 120, test="TestE3", shards=1)],
 }
 PLANS["C18"] = {
